@@ -248,13 +248,13 @@ def object_key(t):
     return None
 
 
-def site_fields(f, b, bd, bi, si, st):
+def site_fields(f, b, bd, bi, si, st, fams=()):
     """{field: α-normalised value} of the aggregate built at (bi, si) of `bd`, in the vocabulary of the function `b`:
     `bd` is `b` itself, or a closure of `b` handed to `map` / `and_then` on a Result — by the contract of those
     combinators the closure's parameter is the receiver's Ok payload, and its captures are the captured values."""
     from engine import sym as symmod
     if bd is b:
-        t = value_text(b, FlowSym(b), st["rv"], bi, si)
+        t = fold_len_roundtrip(value_text(b, FlowSym(b), st["rv"], bi, si), fams)
         return {k: K.alpha(render(v), b) for k, v in t[3]} if t[0] == "agg" else {}
     for c in b.calls():
         if b.is_cleanup(c.bb) or not c.is_static or c.name not in ("map", "and_then"):
@@ -267,7 +267,7 @@ def site_fields(f, b, bd, bi, si, st):
         cb, m = K.closure_env(f, cts[0], recv + "↓Ok.0")
         if cb is None:
             continue
-        t = value_text(bd, FlowSym(bd), st["rv"], bi, si)
+        t = fold_len_roundtrip(value_text(bd, FlowSym(bd), st["rv"], bi, si), fams)
         if t[0] != "agg":
             return {}
         with symmod.substituting(m):
@@ -299,6 +299,34 @@ def rewrap(t):
         v = peel_try(strip_deep(t[3][0][1]))
         if v[0] == "field" and str(v[2]) == "0" and v[1][0] == "variant" and str(v[1][2]) == str(t[2]):
             return rewrap(v[1][1])
+    return t
+
+
+def fold_len_roundtrip(t, fams):
+    """`FamilyAndLen::len(FamilyAndLen::new_<fam>(l)↓Ok.0)` is `l` for the families in `fams` — those for which this run has
+    established both halves by abstract interpretation (the constructor's table: Ok ⇒ the byte encoding `l`; the accessor's
+    table: that byte class decodes to the same number).  So a length handed on inside the checked family-and-length value
+    and read back from it is the length given."""
+    t = peel_try(strip_deep(t))
+    k = t[0]
+    if k == "call":
+        info = t[3] or {}
+        if info.get("res") == A + "FamilyAndLen::len" and len(t[2]) == 1:
+            x = peel_try(strip_deep(t[2][0]))
+            if x[0] == "field" and str(x[2]) == "0" and x[1][0] == "variant" and str(x[1][2]) == "Ok":
+                c = peel_try(strip_deep(x[1][1]))
+                for fam in fams:
+                    if c[0] == "call" and (c[3] or {}).get("res") == A + "FamilyAndLen::new_" + fam and len(c[2]) == 1:
+                        return fold_len_roundtrip(c[2][0], fams)
+        return ("call", t[1], tuple(fold_len_roundtrip(a, fams) for a in t[2]), t[3])
+    if k == "agg":
+        return ("agg", t[1], t[2], tuple((f_, fold_len_roundtrip(v, fams)) for f_, v in t[3]))
+    if k == "field":
+        return ("field", fold_len_roundtrip(t[1], fams), t[2], t[3] if len(t) > 3 else None)
+    if k == "variant":
+        return ("variant", fold_len_roundtrip(t[1], fams), t[2])
+    if k == "mvar":
+        return ("mvar", t[1], t[2], fold_len_roundtrip(t[3], fams))
     return t
 
 
@@ -387,7 +415,14 @@ def row_verdicts(paths, it, rows, path_filter=None):
         ok = bool(ps)
         det = []
         for p in ps:
-            good = bool(pred(p))
+            # the row is a claim about the part of the path that lies in the row's region: the predicate sees the path
+            # with its constraints met with the region's (a value `pl` is the value `m` where the region has pl = m)
+            z = p.zone.copy()
+            for x, y, _ in cons:
+                for q in (x, y):
+                    if q is not None:
+                        z.idx(q)
+            good = bool(pred(absint.Path(z.meet_constraints(cons), p.outcome, p.effects, p.conds, p.trace)))
             ok = ok and good
             if not good or len(det) < 2:
                 d = dict(p.describe(), verdict="ok" if good else "MISMATCH")
@@ -396,6 +431,9 @@ def row_verdicts(paths, it, rows, path_filter=None):
                 det.append(d)
         out[name] = (ok, {"expected": text, "paths": det, "imprecision": it.imprecise[:5]})
     return out
+
+
+ROWS = {}        # "label:row" -> whether the row was established in the current run (reset by run())
 
 
 def table(ctx, f, fn, rows, sym_names=None, assume=None, label=None, inline=None, path_filter=None):
@@ -413,6 +451,7 @@ def table(ctx, f, fn, rows, sym_names=None, assume=None, label=None, inline=None
     rows = [(n, c, ret_val(p, box) if isinstance(p, str) else p, t) for n, c, p, t in rows]
     lab = label or short(fn)
     for name, (ok, det) in row_verdicts(paths, it, rows, path_filter).items():
+        ROWS["%s:%s" % (lab, name)] = ok
         ctx.ob("R-REG", "%s:%s" % (lab, name), ok, "%s: %s ⇒ %s" % (lab, name, [r[3] for r in rows if r[0] == name][0]), where=b.loc, detail=det)
     return paths
 
@@ -426,7 +465,62 @@ def in_module(prefix, keep=()):
     return lambda n: n.startswith(prefix) and n not in keep
 
 
-def family_table(ctx, f, fn, rows, label=None):
+class ValueInterp(absint.Interp):
+    """The abstract interpreter with one more exact summary: `Ord::min` / `Ord::max` of a primitive integer type called as
+    methods on values whose integer type is known only from the callee (`m.min(limit)` on the payload of an
+    `Option<u8>` parameter): the arguments are numbers of the type the impl is for, the result is one of them, decided by
+    their order — the same table the engine uses for `cmp::min(a, b)`."""
+
+    def summary(self, st, body, k, res, name, trait, args, t, bb):
+        ity = None
+        if name in ("min", "max") and trait == "std::cmp::Ord" and len(args) == 2 and (k.get("res_krate") or k.get("krate")) in _STD:
+            # both arguments have the type of the impl: the one type either of them is known to have
+            m = re.match(r"^<(\w+) as std::cmp::Ord>::(min|max)$", res or "")
+            tys = {m.group(1)} if m else {a.ty for a in args if a is not None and a.k in ("int", "obj") and a.ty}
+            ity = next(iter(tys)) if len(tys) == 1 and next(iter(tys)) in absint.INT_RANGES else None
+        if ity:
+            xs = [self.as_int(st, a, ity) for a in args]
+            if all(x is not None and x.lin is not None for x in xs):
+                a, b = xs
+                return [(s2, (a if tr else b) if name == "min" else (b if tr else a)) for s2, tr in self.fork_cmp(st, "le", a.lin, b.lin)]
+        return super().summary(st, body, k, res, name, trait, args, t, bb)
+
+
+def run_values(f, fname, **kw):
+    """K.run_absint with ValueInterp (parameters named by position in `sym_names` likewise)."""
+    kw = {k: v for k, v in kw.items() if v is not None}
+    b = f.body(fname)
+    if b is not None and kw.get("sym_names"):
+        pn = {"%%%d" % i: b.local_name(i) for i in range(1, b.arg_count + 1) if b.local_name(i)}
+        kw["sym_names"] = {re.sub(r"%\d+", lambda m: pn.get(m.group(0), m.group(0)), k): v for k, v in kw["sym_names"].items()}
+    it = ValueInterp(f, **kw)
+    try:
+        return it.run(fname), it, None
+    except absint.Unsupported as e:
+        return None, it, str(e)
+
+
+def same_on_path(p, it, v, want):
+    """Whether the integer value `v` a path returns is the quantity / constant `want` *on that path*: the difference of
+    the two linear forms is 0 under the path's own constraints (`max(32, pl)` returned as `pl` where the path has
+    pl = 32 is the value 32)."""
+    if v is None or v.k != "int" or v.lin is None:
+        return False
+    w = absint.Lin.const(int(want)) if re.match(r"^\d+$", want) else absint.Lin.sym(want)
+    st = absint.State()
+    st.zone = p.zone
+    try:
+        return tuple(it.lin_bounds(st, v.lin.sub(w))) == (0, 0)
+    except Exception:
+        return False
+
+
+# the largest prefix length of each family: with the FamilyAndLen tables and construction sites established, the prefix
+# length of a v4 prefix is at most 32 and that of a v6 prefix at most 128 (the type's invariant)
+FAMILY_MAX = {"v4": 32, "v6": 128}
+
+
+def family_table(ctx, f, fn, rows, label=None, invariant=()):
     """Spec rows over (family of the prefix, m = the max length given, pl = the prefix length) for a function
     (prefix, Option<u8>) -> …; rows: (name, "v4"/"v6", constraints over m / pl, expected value, text).
 
@@ -437,7 +531,9 @@ def family_table(ctx, f, fn, rows, label=None):
          decoding accessors of the encoding byte, which are the quantities `v4` and `pl`;
       2. the same with the family test folded too, once for each byte class of the row's family (the family is then not
          a quantity at all: however the code asks for it, the answer follows from the byte);
-      3. the body as written with the public accessors as the quantities."""
+      3. the body as written with the public accessors as the quantities.
+    For the families in `invariant` (those whose type invariant this run has established) a row is decided for prefix
+    lengths within the family's bound only; a row that does not name a family is decided for each family in turn."""
     b = f.body(fn)
     if b is None:
         return ctx.missing("R-REG", short(fn), fn)
@@ -452,16 +548,19 @@ def family_table(ctx, f, fn, rows, label=None):
     fam_cons = {"v4": RC("v4", 1, 1), "v6": RC("v4", 0, 0)}
     cache = {}
 
-    def reading(kind, cls=None):
-        key = (kind, cls)
+    def reading(kind, cls=None, fam=None):
+        key = (kind, cls, fam)
         if key not in cache:
+            known = [("^pl$", 0, FAMILY_MAX[fam])] if fam in invariant else []
+            if fam in invariant and kind != "bytes":
+                known.append(("^v4$", int(fam == "v4"), int(fam == "v4")))
             if kind == "atoms":
-                r = K.run_absint(f, fn, sym_names=atoms, inline=in_module(A, (FLN + "len", FLN + "is_v4")))
+                r = run_values(f, fn, sym_names=atoms, inline=in_module(A, (FLN + "len", FLN + "is_v4")), assume=known)
             elif kind == "bytes":
                 names = {"%2↓Some.0": "m", "FamilyAndLen::len(%1.family_and_len)": "pl", "%1.family_and_len.0": "x"}
-                r = K.run_absint(f, fn, sym_names=names, inline=in_module(A, (FLN + "len",)), assume=[("^x$", cls[0], cls[1])])
+                r = run_values(f, fn, sym_names=names, inline=in_module(A, (FLN + "len",)), assume=[("^x$", cls[0], cls[1])] + known)
             else:
-                r = K.run_absint(f, fn, sym_names=atoms)
+                r = run_values(f, fn, sym_names=atoms, assume=known)
             cache[key] = r
         return cache[key]
 
@@ -469,16 +568,19 @@ def family_table(ctx, f, fn, rows, label=None):
         name, fam, cons, want, text = row
         tried = {}
         for kind in ("atoms", "bytes", "plain"):
-            classes = FAMILY_BYTES[fam] if fam else FAMILY_BYTES["v4"] + FAMILY_BYTES["v6"]
-            runs = [(reading(kind, c), c) for c in classes] if kind == "bytes" else [(reading(kind), None)]
+            fams = [fam] if fam else (["v4", "v6"] if invariant else [None])
+            if kind == "bytes":
+                runs = [(reading(kind, c, fx), c, fx) for fx in fams for c in (FAMILY_BYTES[fx] if fx else FAMILY_BYTES["v4"] + FAMILY_BYTES["v6"])]
+            else:
+                runs = [(reading(kind, None, fx if fx in invariant else None), None, fx) for fx in fams]
             ok = True
             dets = []
-            for (paths, it, err), c in runs:
+            for (paths, it, err), c, fx in runs:
                 if paths is None:
                     ok = False
                     dets.append({"not analysable": err})
                     continue
-                cs = cons if kind == "bytes" or not fam else fam_cons[fam] + cons
+                cs = cons if kind == "bytes" or not fx else fam_cons[fx] + cons
                 pred = ret_val(want, [it]) if isinstance(want, str) else (lambda p, it=it: want(p, it))
                 o, d = row_verdicts(paths, it, [(name, cs, pred, text)], flt)[name]
                 ok = ok and o
@@ -503,6 +605,7 @@ def run(ctx):
     ctx.rule("R-SIB", "Eq / Ord / Hash look at the same projections")
     ctx.rule("R-PANIC", "shift sites enumerated; new sites are reported")
 
+    ROWS.clear()
     # ---- C13.a FamilyAndLen ----------------------------------------------------
     # expected values are given by their value (linear form over the argument), not by the operator that computes them
     FL = A + "FamilyAndLen"
@@ -525,10 +628,17 @@ def run(ctx):
     sites = [x for x in aggregates_of(f, FL) if not is_derived(x[0])]
     fns = sorted({root_fn(f, x[0].name) for x in sites})
     ok = set(fns) - {FL + "::new_v4", FL + "::new_v6"} <= {n for n in fns if "arbitrary" in n.lower()}
-    ctx.ob("R-WHO", "FamilyAndLen-literal-sites", ok and {FL + "::new_v4", FL + "::new_v6"} <= set(fns),
+    fl_sites_ok = ok and {FL + "::new_v4", FL + "::new_v6"} <= set(fns)
+    ctx.ob("R-WHO", "FamilyAndLen-literal-sites", fl_sites_ok,
            "FamilyAndLen(..) is built only in new_v4, new_v6 and the hand-written (range-respecting) Arbitrary impl", detail=fns)
 
     # ---- Prefix constructors -----------------------------------------------------
+    # families for which "the length read back from the checked family-and-length value is the length given" is
+    # established by the tables above (constructor: Ok ⇒ the encoding of len; accessor: that encoding decodes to len)
+    need = {"v4": ("FamilyAndLen::new_v4:len≤32", "FamilyAndLen::len[v4]:x∈[0,32]"),
+            "v6": ("FamilyAndLen::new_v6:len<128", "FamilyAndLen::new_v6:len=128", "FamilyAndLen::len[v6/128]:x∈[64,64]",
+                   "FamilyAndLen::len[v6/<128]:x∈[128,255]")}
+    roundtrip = tuple(fam for fam, rows in sorted(need.items()) if all(ROWS.get(r) is True for r in rows))
     P = A + "Prefix"
     sites = [x for x in aggregates_of(f, P) if not is_derived(x[0])]
     fns = sorted({root_fn(f, x[0].name) for x in sites})
@@ -555,7 +665,7 @@ def run(ctx):
             okf = bool(mine)
             detail = None
             for bd, bi, si, st in mine:
-                flds = site_fields(f, b, bd, bi, si, st)
+                flds = site_fields(f, b, bd, bi, si, st, roundtrip)
                 detail = flds
                 fl_ok = flds.get("family_and_len") == "FamilyAndLen::new_%s(%%2)↓Ok.0" % fam
                 if relaxed:
@@ -567,7 +677,14 @@ def run(ctx):
                    "%s stores the checked family/length of the same family and the %s address bits"
                    % (short(fn), "host-cleared" if relaxed else "given"), where=b.loc, detail=detail)
             if not relaxed:
-                g = pred_matcher(r"Bits::is_host_zero$", (r"^Bits::from_%s\(addr\)$" % fam, r"^len$"))
+                # the test is is_host_zero(<the address's bits>, <the length given>) — the length as the parameter itself or
+                # read back from the checked family-and-length value of it
+                g0 = pred_matcher(r"Bits::is_host_zero$", (r"^Bits::from_%s\(addr\)$" % fam,))
+
+                def g(rel, a, b_, g0=g0):
+                    if g0(rel, a, b_) is None or len(a) < 2:
+                        return None
+                    return True if render(fold_len_roundtrip(a[1], roundtrip)) == "len" else None
                 mp = MustPass(f, lambda c: False, guard_fn=lambda bd, s_, bb, g=g: guard_edges(bd, s_, bb, g), name="host bits zero")
                 ok = mp.holds(fn)
                 ctx.ob("R-GRD", "%s:host-bits-zero" % short(fn), ok,
@@ -611,14 +728,25 @@ def run(ctx):
         vals = sorted({K.alpha(render(same_option(peel_try(strip_deep(t)))), b) for _, _, t in success_values(b)})
         ctx.ob("R-FLOW", "MaxLenPrefix::new:stores-arguments", vals == ["result::Result::Ok{0: addr::MaxLenPrefix::MaxLenPrefix{prefix: %1, max_len: %2}}"],
                "MaxLenPrefix::new stores exactly (prefix, max_len)", where=b.loc, detail=vals)
-    sat = lambda what: (lambda p, it: maxlen_parts(p, it) == ("", pfx(M + "::saturating_new"), "Some(%s)" % what))
+    def sat(what):
+        """The path returns MaxLenPrefix { prefix: <1st argument>, max_len: Some(<what>) } — <what> by its value on the path."""
+        def pred(p, it):
+            if maxlen_parts(p, it) == ("", pfx(M + "::saturating_new"), "Some(%s)" % what):
+                return True
+            parts = maxlen_parts(p, it)
+            ml = p.outcome[1].fields.get("max_len") if parts and parts[:2] == ("", pfx(M + "::saturating_new")) else None
+            return ml is not None and ml.k == "variant" and ml.vname == "Some" and same_on_path(p, it, (ml.fields or {}).get(0), what)
+        return pred
+    # the type invariant of Prefix (v4 ⇒ len ≤ 32, v6 ⇒ len ≤ 128), where this run has established it: the encoding byte
+    # is built only by the two checked constructors and decodes to the length given
+    prefix_inv = roundtrip if fl_sites_ok and ROWS.get("FamilyAndLen::new_v4:len>32") and ROWS.get("FamilyAndLen::new_v6:len>128") else ()
     family_table(ctx, f, M + "::saturating_new", [
         ("pl>m", None, RC(("pl", "m"), 1, None), sat("pl"), "Some(prefix.len())"),
         ("v4, pl≤m, m>32", "v4", RC("m", 33, 255) + RC(("pl", "m"), None, 0), sat("32"), "Some(32)"),
         ("v6, pl≤m, m>128", "v6", RC("m", 129, 255) + RC(("pl", "m"), None, 0), sat("128"), "Some(128)"),
         ("v4, pl≤m≤32", "v4", RC("m", 0, 32) + RC(("pl", "m"), None, 0), sat("m"), "Some(m)"),
         ("v6, pl≤m≤128", "v6", RC("m", 0, 128) + RC(("pl", "m"), None, 0), sat("m"), "Some(m)"),
-    ])
+    ], invariant=prefix_inv)
     sites = [x for x in aggregates_of(f, M) if not is_derived(x[0])]
     fns = sorted({root_fn(f, x[0].name) for x in sites})
     allowed = {M + "::new", M + "::saturating_new", "<%s as std::convert::From<%s>>::from" % (M, P)}
@@ -806,8 +934,10 @@ def run(ctx):
     got = sorted(set(shifts))
     want = sorted([A + "Bits::clear_host", A + "Bits::from_v4", A + "Bits::into_max", A + "Bits::into_v4",
                    A + "Prefix::covers", "<%sPrefix as std::cmp::Ord>::cmp" % A])
-    ctx.ob("R-PANIC", "addr.rs:u128-shift-sites", got == want,
-           "the functions that shift 128-bit values are exactly the reviewed ones (clear_host/into_max guard len 0/≥128; "
+    # a reviewed function that no longer shifts (it went over to checked_shl, say) cannot overflow a shift: only a *new*
+    # shifting function is a new way to panic; at least half of the reviewed ones must still be seen (the rule is alive)
+    ctx.ob("R-PANIC", "addr.rs:u128-shift-sites", set(got) <= set(want) and len(got) * 2 >= len(want),
+           "the functions that shift 128-bit values are among the reviewed ones (clear_host/into_max guard len 0/≥128; "
            "covers/cmp return before a shift by 128; from_v4/into_v4 shift by the constant 96)", detail={"found": got, "reviewed": want})
     for fn, rows in ((A + "Bits::clear_host", [("len=0", RC("len", 0, 0), ret_is("addr::Bits{0: 0}"), "Bits(0)")]),
                      (A + "Bits::into_max", [("prefix_len≥128", RC("prefix_len", 128, 255), ret_is("self"), "self unchanged")])):
@@ -851,10 +981,49 @@ class Res:
         return "%s(%r)" % ("Ok" if self.ok else "Err", self.v)
 
 
+class Enum:
+    """Value of a crate-defined enum under an assignment (a private "state of the heads" / "what to do" enum a function
+    hands from its deciding half to its acting half): which variant (by declaration index and name), and its payloads."""
+    __slots__ = ("adt", "idx", "name", "fields")
+
+    def __init__(self, adt, idx, name, fields):
+        self.adt, self.idx, self.name, self.fields = adt, idx, name, tuple(fields)
+
+    def _key(self):
+        return (self.adt, self.idx, tuple("?" if isinstance(x, _Unknown) else x for x in self.fields))
+
+    def __eq__(self, other):
+        return isinstance(other, Enum) and self._key() == other._key()
+
+    def __hash__(self):
+        return hash(self._key())
+
+    def __repr__(self):
+        return "%s(%s)" % (self.name, ", ".join(repr(x) for x in self.fields))
+
+
+def enum_value(facts, adt, variant, payloads):
+    """The Enum for a literal `adt::variant(payloads…)`, when the discriminant MIR reads off such a value is known to be
+    the declaration index: an enum of this crate with at least one variant carrying data and no `repr` integer type
+    (explicit discriminants are not allowed there).  None otherwise (not read, never guessed)."""
+    rec = (getattr(facts, "adts", None) or {}).get(adt) if facts is not None else None
+    if not rec or rec.get("kind") != "Enum" or "int: None" not in (rec.get("repr") or ""):
+        return None
+    vs = rec.get("variants") or []
+    if not any(v.get("fields") for v in vs):
+        return None
+    idx = [i for i, v in enumerate(vs) if v.get("name") == str(variant)]
+    if len(idx) != 1 or len(vs[idx[0]].get("fields") or []) != len(payloads):
+        return None
+    return Enum(adt, idx[0], str(variant), payloads)
+
+
 def _known(x):
     """No unknown payload anywhere inside a value."""
     if x is None or isinstance(x, _Unknown):
         return False
+    if isinstance(x, Enum):
+        return all(_known(y) for y in x.fields)
     if isinstance(x, tuple):
         return all(_known(y) for y in x)
     if isinstance(x, Res):
@@ -863,7 +1032,7 @@ def _known(x):
 
 
 def _comparable(x, y):
-    return _known(x) and _known(y) and type(x) is type(y) and not isinstance(x, Res)
+    return _known(x) and _known(y) and type(x) is type(y) and not isinstance(x, (Res, Enum))
 
 
 def _payload(x):
@@ -923,6 +1092,8 @@ def order_value(t, leaf, facts=None):
                 return (_payload(order_value(t[3][0][1], leaf, facts)),)
         if str(t[1]).endswith("result::Result") and str(t[2]) in ("Ok", "Err") and len(t[3]) == 1:
             return Res(str(t[2]) == "Ok", _payload(order_value(t[3][0][1], leaf, facts)))
+        if t[1] not in ("tuple", "array", "closure"):
+            return enum_value(facts, t[1], t[2], [_payload(order_value(v, leaf, facts)) for _, v in t[3]])
         return None
     if k == "discr":
         inner = strip_deep(t[1])
@@ -939,7 +1110,14 @@ def order_value(t, leaf, facts=None):
             return len(x)               # None = 0, Some = 1
         if isinstance(x, Res):
             return 0 if x.ok else 1     # Ok = 0, Err = 1
+        if isinstance(x, Enum):
+            return x.idx                # declaration index (see enum_value)
         return x if isinstance(x, int) else None
+    if k == "field" and t[1][0] == "variant" and str(t[2]).isdigit():
+        x0 = order_value(t[1][1], leaf, facts)
+        if isinstance(x0, Enum):
+            r = x0.fields[int(t[2])] if x0.name == str(t[1][2]) and int(t[2]) < len(x0.fields) else None
+            return r if _known(r) else None
     if k == "field" and str(t[2]) == "0" and t[1][0] == "variant":
         x = order_value(t[1][1], leaf, facts)
         vn = str(t[1][2])
@@ -1108,6 +1286,19 @@ def _const_of(op, env):
     return None
 
 
+def _path_place(pl, env, sym):
+    """("t", term) of a place — a local, or a field / variant payload of it — whose local holds a value computed on the
+    path walked so far; None when the path has not set it."""
+    if pl is None or sym is None:
+        return None
+    held = env.get(pl["l"])
+    if not isinstance(held, tuple):
+        return None
+    if any(p[0] not in ("d", "f", "dc") for p in pl["p"]):
+        return None
+    return ("t", sym._project(held[1], pl["p"], 0))
+
+
 def cond_term(sym, d):
     """The term a recorded branch tested: the discriminant operand, or the value a flag local was given on the path."""
     return d if isinstance(d, tuple) else sym.operand(d)
@@ -1122,9 +1313,17 @@ def _flags_after(stmts, env, sym=None):
             env.pop(st["rv"]["pl"]["l"], None)      # borrowed: may change behind our back
         if st["s"] == "assign" and not st["pl"]["p"]:
             v = _const_of(st["rv"]["op"], env) if st["rv"]["r"] == "use" else None
-            if v is None and sym is not None and st["pl"]["l"] in sym._multi and st["pl"]["l"] > sym.body.arg_count \
-                    and sym.body.local_ty(st["pl"]["l"]) == "bool":
-                v = ("t", sym.rvalue(st["rv"]))      # a flag computed on this path: a later branch on it tests this value
+            if v is None and st["rv"]["r"] == "use":
+                v = _path_place(st["rv"]["op"].get("c") or st["rv"]["op"].get("m"), env, sym)      # a part of such a value
+            if v is None and st["rv"]["r"] == "discr":
+                # the discriminant of a selector the path has set (`let order = match … { … => Less, … => a.cmp(b) }` …
+                # `match order`), or of a part of it: the discriminant of the value it was given on this path
+                pv = _path_place(st["rv"]["pl"], env, sym)
+                v = ("t", ("discr", pv[1])) if pv is not None else None
+            if v is None and sym is not None and st["pl"]["l"] in sym._multi and st["pl"]["l"] > sym.body.arg_count:
+                # a flag / selector of any type (bool, Ordering, Option, a private enum) computed on this path: a later
+                # branch on it tests the value it was given here
+                v = ("t", sym.rvalue(st["rv"]))
             if v is not None or st["pl"]["l"] in env:
                 env = dict(env)
                 env.pop(st["pl"]["l"], None)
@@ -1173,10 +1372,10 @@ def iteration_paths(b, starts, stops, on_stmt=None, max_paths=4000, revisit_agai
             if on_stmt is not None:
                 on_stmt(bb, "term", t, notes, conds)
             dl = t["dest"]["l"]
-            if dl in env or (sym is not None and not t["dest"]["p"] and dl in sym._multi and sym.body.local_ty(dl) == "bool"):
+            if dl in env or (sym is not None and not t["dest"]["p"] and dl in sym._multi):
                 env = dict(env)
                 env.pop(dl, None)
-                if sym is not None and not t["dest"]["p"] and dl in sym._multi and sym.body.local_ty(dl) == "bool":
+                if sym is not None and not t["dest"]["p"] and dl in sym._multi and dl > sym.body.arg_count:
                     env[dl] = ("t", sym.call(t, bb))
             if t.get("target") is not None:
                 stack.append((t["target"], conds, notes, seen, env))
@@ -1401,8 +1600,11 @@ def merge_step_table(b, facts=None):
     problems = []
 
     def side_of(t):
+        # the two peekable sequences are the `left` / `right` fields of the iterator, directly or inside a state struct
+        # the iterator wraps (`self.left`, `self.merge.left`): a field path from `self` ending in left / right
         r = K.alpha(render(strip_deep(t)), b)
-        return {"self.left": "L", "self.right": "R"}.get(r, r)
+        m = re.match(r"^self(?:\.\w+)*\.(left|right)$", r)
+        return {"left": "L", "right": "R"}[m.group(1)] if m else r
 
     def on_stmt(bb, si, st, notes, conds):
         if si == "term":
